@@ -29,10 +29,10 @@ Record InvS (n : node) (m : ms) : Prop := mkInvS {
   vs_OUTS : forall t s body rel, states n !! t = Some s -> (t, body, rel) ∈ T -> outs_ok body (s_outs s) = true;
   vs_PRF : forall t, lookup_proof m t = oproof (states n !! t);
   vs_PRF0 : forall t s b, states n !! t = Some s -> s_proof s = Some b -> 0 <= b;
-  vs_PRFB : forall t s b, states n !! t = Some s -> s_proof s = Some b -> inblock t b }.
+  vs_PRFB : forall t s b, states n !! t = Some s -> s_proof s = Some b -> inblock t b;
+  vs_BODY : forall t s body rel, states n !! t = Some s -> (t, body, rel) ∈ T -> s_body s = body }.
 
-(* Rs: the transactions that were sent again while confirmed in the chain (see TxFlowSpec.op_ok) *)
-Record InvU (Rs : list Z) (n : node) (m : ms) : Prop := mkInvU {
+Record InvU (n : node) (m : ms) : Prop := mkInvU {
   vu_clock : m_clock m = now n;
   vu_sync : m_insync m = insync n;
   vu_chain : m_chain m = chain n;
@@ -56,13 +56,15 @@ Record InvU (Rs : list Z) (n : node) (m : ms) : Prop := mkInvU {
       (exists u, unconf n !! t = Some u /\ u_trusted u = true) \/
       (exists s, states n !! t = Some s /\ conf n s);
   vu_UUNS : forall t u, unconf n !! t = Some u -> u_unsafe u = true -> t ∈ m_unsafe m;
-  vu_CONF : forall t, t ∈ m_conflicted m -> relT t ->
-      exists s, states n !! t = Some s /\ (s_unsafe s = true \/ t ∈ Rs);
-  vu_RS : forall t, t ∈ Rs -> exists s, states n !! t = Some s /\ conf n s;
-  vu_HELD : forall t b s, (t, b) ∈ m_pool m -> states n !! t = Some s -> conf n s -> t ∈ Rs;
-  vu_LIMBO : forall t b s, (t, b) ∈ m_pool m -> states n !! t = Some s -> ~ conf n s -> is_Some (unconf n !! t) }.
+  vu_CONF : forall t, t ∈ m_conflicted m -> relT t -> exists s, states n !! t = Some s /\ s_unsafe s = true;
+  (* a stored transaction whose body the node holds is tracked as unconfirmed: a transaction delivered with its
+     confirmation is taken out of the mempool, and so is every transaction a block confirms *)
+  vu_HELD : forall t b s, (t, b) ∈ m_pool m -> states n !! t = Some s -> is_Some (unconf n !! t);
+  vu_BODY : forall t u, unconf n !! t = Some u ->
+      exists s, states n !! t = Some s /\ lookup_body m t = Some (s_body s);
+  vu_LND : NoDup (m_live m) }.
 
-Definition Inv (Rs : list Z) (n : node) (m : ms) : Prop := InvS n m /\ InvU Rs n m.
+Definition Inv (n : node) (m : ms) : Prop := InvS n m /\ InvU n m.
 
 (* facts about the table of mentions *)
 Lemma T_body t b1 r1 b2 r2 : (t, b1, r1) ∈ T -> (t, b2, r2) ∈ T -> b1 = b2 /\ r1 = r2.
@@ -172,7 +174,7 @@ Lemma gen_states (PB : Z -> Prop) n m n' m1 evs :
   (forall b, b ∈ chain n' -> 0 <= b) ->
   (forall b, PB b -> 0 <= b) ->
   (forall t s, ETx t s ∈ evs ->
-     relT t /\ flags s /\ (forall body rel, (t, body, rel) ∈ T -> outs_ok body (s_outs s) = true) /\
+     relT t /\ flags s /\ (forall body rel, (t, body, rel) ∈ T -> outs_ok body (s_outs s) = true /\ s_body s = body) /\
      (forall so, states n !! t = Some so -> s_unsafe so = true -> s_unsafe s = true)) ->
   (forall t s b, tev_in evs t s -> s_proof s = Some b -> PB b -> inblock t b) ->
   InvS n' (notes m1 evs).
@@ -216,8 +218,8 @@ Proof.
     + apply (x_upd _ _ _ _ HE) in H. destruct H as (so & Hso & _). apply (vs_REL _ _ HS). eauto.
     + apply (vs_REL _ _ HS). eauto.
   - intros t s body rel Hs HT. destruct (Ext_back _ _ _ _ t s HE Hs) as [[H|H]|[_ H]].
-    + eapply (Hnew t s H); eauto.
-    + apply (x_upd _ _ _ _ HE) in H. destruct H as (so & Hso & _ & _ & _ & _ & Ho). rewrite Ho.
+    + destruct (Hnew t s H) as (_ & _ & Hb & _). apply (Hb body rel HT).
+    + apply (x_upd _ _ _ _ HE) in H. destruct H as (so & Hso & _ & _ & _ & _ & Ho & _). rewrite Ho.
       eapply vs_OUTS; eauto.
     + eapply vs_OUTS; eauto.
   - intros t.
@@ -245,6 +247,11 @@ Proof.
     + rewrite Hb in Hp. destruct (states n !! t) as [so|] eqn:Eso; [|discriminate].
       cbn in Hp. eapply vs_PRFB; eauto.
     + assert (b' = b) by congruence. subst b'. eapply Hprf; eauto.
+  - intros t s body rel Hs HT. destruct (Ext_back _ _ _ _ t s HE Hs) as [[H|H]|[_ H]].
+    + destruct (Hnew t s H) as (_ & _ & Hb & _). apply (Hb body rel HT).
+    + apply (x_upd _ _ _ _ HE) in H. destruct H as (so & Hso & _ & _ & _ & _ & _ & Ho). rewrite Ho.
+      eapply vs_BODY; eauto.
+    + eapply vs_BODY; eauto.
 Qed.
 
 (* ---------------------------------------------------------------------------------------- *)
@@ -363,16 +370,16 @@ Lemma step_simple_monitor m o c rest :
         (0, if trusted && m_insync m
             then MS (m_pool m) (m_delivered m) (m_live m) (m_seen m) (add_z t (m_vouched m)) (m_conflicted m)
                     (m_unsafe m) (m_safe m) (m_local m) (m_clock m) (m_insync m) (m_chain m)
-                    (add_z t (m_vnow m)) (m_vpersist m) (m_proofs m)
+                    (add_z t (m_vnow m)) (m_vpersist m) (m_proofs m) (m_body m)
             else m)
     | OAdvance dt => (0, MS (m_pool m) (m_delivered m) (m_live m) (m_seen m) (m_vouched m) (m_conflicted m)
                            (m_unsafe m) (m_safe m) (m_local m) (m_clock m + dt) (m_insync m) (m_chain m)
-                           (m_vnow m) (m_vpersist m) (m_proofs m))
+                           (m_vnow m) (m_vpersist m) (m_proofs m) (m_body m))
     | OSetInSync b => (0, set_insync m b)
     | ORestart =>
-        (0, MS [] (m_delivered m) (m_live m) (m_seen m) (m_vouched m) (m_conflicted m)
+        (0, MS (reload_pool m) (m_delivered m) (m_live m) (m_seen m) (m_vouched m) (m_conflicted m)
                (m_unsafe m) (m_safe m) (m_local m) (m_clock m) false (m_chain m) (m_vpersist m) (m_vpersist m)
-               (m_proofs m))
+               (m_proofs m) (m_body m))
     | OGetTx t => ((if mem t (m_delivered m) && negb (c =? OK) then 171 else 0), m)
     | _ => (0, m)
     end in (code, m1).
@@ -381,9 +388,9 @@ Proof.
   destruct o; try discriminate; cbn [pre_step first_bad fold_left Z.eqb negb]; reflexivity.
 Qed.
 
-Lemma step_advance Rs n m dt : Inv Rs n m -> 0 <= dt ->
+Lemma step_advance n m dt : Inv n m -> 0 <= dt ->
   exists m', monitor_step dl m (OAdvance dt) [OK] = (0, m') /\
-    Inv Rs (Node (mp n) (unconf n) (states n) (blocktxs n) (chain n) (insync n) (now n + dt) (delay n)) m'.
+    Inv (Node (mp n) (unconf n) (states n) (blocktxs n) (chain n) (insync n) (now n + dt) (delay n)) m'.
 Proof.
   intros [HS HU] Hdt. rewrite step_simple_monitor by reflexivity. eexists. split; [reflexivity|].
   split.
@@ -391,25 +398,25 @@ Proof.
   - destruct HU. split; cbn; try assumption. congruence.
 Qed.
 
-Lemma Inv_setsync Rs n m b : Inv Rs n m ->
-  Inv Rs (Node (mp n) (unconf n) (states n) (blocktxs n) (chain n) b (now n) (delay n)) (set_insync m b).
+Lemma Inv_setsync n m b : Inv n m ->
+  Inv (Node (mp n) (unconf n) (states n) (blocktxs n) (chain n) b (now n) (delay n)) (set_insync m b).
 Proof.
   intros [HS HU]. split.
   - eapply InvS_frame; [exact HS|reflexivity|apply (vs_chain0 _ _ HS)|]. repeat split.
   - destruct HU. split; cbn; try assumption. reflexivity.
 Qed.
 
-Lemma step_setsync Rs n m b : Inv Rs n m ->
+Lemma step_setsync n m b : Inv n m ->
   exists m', monitor_step dl m (OSetInSync b) [OK] = (0, m') /\
-    Inv Rs (Node (mp n) (unconf n) (states n) (blocktxs n) (chain n) b (now n) (delay n)) m'.
+    Inv (Node (mp n) (unconf n) (states n) (blocktxs n) (chain n) b (now n) (delay n)) m'.
 Proof.
   intros HI. rewrite step_simple_monitor by reflexivity. eexists. split; [reflexivity|].
   apply Inv_setsync, HI.
 Qed.
 
-Lemma step_gettx Rs n m t : Inv Rs n m ->
+Lemma step_gettx n m t : Inv n m ->
   exists m', monitor_step dl m (OGetTx t) (match states n !! t with Some _ => [OK; t] | None => [ERR] end)
-             = (0, m') /\ Inv Rs n m'.
+             = (0, m') /\ Inv n m'.
 Proof.
   intros [HS HU]. destruct (states n !! t) as [s|] eqn:Es.
   - rewrite step_simple_monitor by reflexivity. cbn. rewrite andb_false_r.
@@ -421,53 +428,87 @@ Proof.
       intros Hin. apply (vs_D _ _ HS) in Hin. rewrite Es in Hin. destruct Hin. discriminate.
 Qed.
 
-Lemma step_unconf Rs n m ob : Inv Rs n m ->
-  exists m', monitor_step dl m OUnconf ob = (0, m') /\ Inv Rs n m'.
+Lemma step_unconf n m ob : Inv n m ->
+  exists m', monitor_step dl m OUnconf ob = (0, m') /\ Inv n m'.
 Proof.
   intros HI. unfold monitor_step. cbn [carries_events pre_step]. cbn [first_bad fold_left Z.eqb negb].
   exists m. split; [reflexivity|exact HI].
 Qed.
 
-Lemma step_blocktxs Rs n m h ob : Inv Rs n m ->
-  exists m', monitor_step dl m (OBlockTxs h) ob = (0, m') /\ Inv Rs n m'.
+Lemma step_blocktxs n m h ob : Inv n m ->
+  exists m', monitor_step dl m (OBlockTxs h) ob = (0, m') /\ Inv n m'.
 Proof.
   intros HI. unfold monitor_step. cbn [carries_events pre_step]. cbn [first_bad fold_left Z.eqb negb].
   exists m. split; [reflexivity|exact HI].
 Qed.
 
-Lemma step_restart Rs n m : Inv Rs n m ->
-  exists m', monitor_step dl m ORestart [OK] = (0, m') /\ Inv Rs (restart n) m'.
+Lemma fold_left_ext_in {A B} (f g : A -> B -> A) l : forall a,
+  (forall a x, x ∈ l -> f a x = g a x) -> fold_left f l a = fold_left g l a.
+Proof.
+  induction l as [|x l IH]; intros a H; [reflexivity|]. cbn. rewrite (H a x) by left.
+  apply IH. intros a' x' Hx'. apply H. right. exact Hx'.
+Qed.
+
+Lemma step_restart n m : Inv n m ->
+  exists m', monitor_step dl m ORestart [OK] = (0, m') /\ Inv (restart n) m'.
 Proof.
   intros [HS HU]. rewrite step_simple_monitor by reflexivity. eexists. split; [reflexivity|].
+  (* the mempool after load and the bodies the monitor expects to be held *)
+  assert (Hkeys : sort_z (m_live m) = sorted_keys (unconf n)).
+  { apply sort_z_keys; [apply (vu_LND _ _ HU)|apply (vu_L _ _ HU)]. }
+  assert (Hlive : forall t, t ∈ sorted_keys (unconf n) ->
+            exists u s, unconf n !! t = Some u /\ states n !! t = Some s /\ lookup_body m t = Some (s_body s)).
+  { intros t Ht. apply sorted_keys_elem in Ht. destruct Ht as (u & Hu).
+    destruct (vu_BODY _ _ HU t u Hu) as (s & Hs & Hb). eauto. }
+  assert (Hre : reload n = fold_left (fun mm t => match lookup_body m t with
+                                                   | Some b => fst (add_transaction mm (now n) t b false)
+                                                   | None => mm end) (sorted_keys (unconf n)) mp_init).
+  { unfold reload. apply fold_left_ext_in. intros mm t Ht.
+    destruct (Hlive t Ht) as (u & s & _ & Hs & Hb). rewrite Hs, Hb. reflexivity. }
+  destruct (reload_spec (lookup_body m) (now n) (sorted_keys (unconf n)) mp_init [] (sorted_keys_NoDup _) R_init)
+    as [HRr Htr].
+  { intros t _. reflexivity. }
+  { intros x. unfold is_trusted. cbn. rewrite lookup_empty. reflexivity. }
+  cbv zeta in HRr, Htr. rewrite <- Hre in HRr, Htr. cbn [app] in HRr.
+  assert (Hpool : forall t b, (t, b) ∈ reload_pool m ->
+            exists u s, unconf n !! t = Some u /\ states n !! t = Some s /\ b = s_body s).
+  { intros t b Hin. unfold reload_pool in Hin. rewrite Hkeys in Hin. apply elem_of_list_omap in Hin.
+    destruct Hin as (t' & Ht' & He). destruct (Hlive t' Ht') as (u & s & Hu & Hs & Hb). rewrite Hb in He.
+    destruct (zlen (s_body s) =? 0); [discriminate|]. inversion He. subst. eauto. }
   split.
   - eapply InvS_frame; [exact HS|reflexivity|apply (vs_chain0 _ _ HS)|]. repeat split.
-  - destruct HU. split; cbn; try assumption; try reflexivity.
-    + apply R_init.
-    + intros t b H. apply elem_of_nil in H. destruct H.
-    + intros t b H. apply elem_of_nil in H. destruct H.
-    + intros t H. unfold is_trusted in H. cbn in H. rewrite lookup_empty in H. discriminate.
-    + intros t Hin. destruct (vu_VPER0 t Hin) as [H|(s & Hs & Hp)]; [auto|].
+  - destruct HU as [Uclock Usync Uchain Udelay UR UpoolT UpoolS UL UUS USU USEEN USAFE1 USAFE2 USAFE3 UVCH UVCH2 UVNOW
+                     UVPER UUUNS UCONF UHELD UBODY ULND].
+    split; cbn [restart mp unconf states chain insync now delay m_pool m_delivered m_live m_seen m_vouched
+                m_conflicted m_unsafe m_safe m_local m_clock m_insync m_chain m_vnow m_vpersist m_proofs m_body];
+      try assumption; try reflexivity.
+    + unfold reload_pool. rewrite Hkeys. exact HRr.
+    + intros t b Hin. destruct (Hpool t b Hin) as (u & s & Hu & Hs & ->).
+      destruct (vs_REL _ _ HS t) as (body & HT); [eauto|]. exists true.
+      rewrite (vs_BODY _ _ HS t s body true Hs HT). exact HT.
+    + intros t b Hin _. destruct (Hpool t b Hin) as (u & s & Hu & Hs & _). eauto.
+    + intros t H. rewrite Htr in H. discriminate.
+    + intros t Hin. destruct (UVPER t Hin) as [H|(s & Hs & Hp)]; [auto|].
       right. right. left. exists s. auto.
-    + intros t b s H. apply elem_of_nil in H. destruct H.
-    + intros t b s H. apply elem_of_nil in H. destruct H.
+    + intros t b s Hin _. destruct (Hpool t b Hin) as (u & s' & Hu & _). eauto.
 Qed.
 
-Lemma step_inv Rs n m t trusted : Inv Rs n m ->
+Lemma step_inv n m t trusted : Inv n m ->
   let r := (if insync n || negb trusted then
               let '(m1, (have, req)) := add_request (mp n) (now n) t trusted in
               (set_mp n m1, [OK; b2z req; b2z (negb have && negb req)])
             else (n, [OK; 0; 0])) in
-  exists m', monitor_step dl m (OInv t trusted) (snd r) = (0, m') /\ Inv Rs (fst r) m'.
+  exists m', monitor_step dl m (OInv t trusted) (snd r) = (0, m') /\ Inv (fst r) m'.
 Proof.
   intros [HS HU]. cbv zeta.
   assert (Hmon : forall a b c, monitor_step dl m (OInv t trusted) [a; b; c] =
      (0, if trusted && m_insync m
             then MS (m_pool m) (m_delivered m) (m_live m) (m_seen m) (add_z t (m_vouched m)) (m_conflicted m)
                     (m_unsafe m) (m_safe m) (m_local m) (m_clock m) (m_insync m) (m_chain m)
-                    (add_z t (m_vnow m)) (m_vpersist m) (m_proofs m)
+                    (add_z t (m_vnow m)) (m_vpersist m) (m_proofs m) (m_body m)
             else m)).
   { intros a b c. rewrite step_simple_monitor by reflexivity. reflexivity. }
-  pose proof (vu_sync _ _ _ HU) as Hsync.
+  pose proof (vu_sync _ _ HU) as Hsync.
   destruct (insync n || negb trusted) eqn:Eg.
   - pose proof (add_request_view (mp n) (now n) t trusted) as Hview. cbv zeta in Hview.
     pose proof (add_request_trusted (mp n) (now n) t trusted) as Htr.
@@ -475,7 +516,7 @@ Proof.
     destruct Hview as [Hv1 Hv2].
     rewrite Hmon. eexists. split; [reflexivity|].
     rewrite Hsync.
-    assert (HR' : R m1 (m_pool m)) by (apply (R_same_view (mp n)); [apply (vu_R _ _ _ HU)|exact Hv1|exact Hv2]).
+    assert (HR' : R m1 (m_pool m)) by (apply (R_same_view (mp n)); [apply (vu_R _ _ HU)|exact Hv1|exact Hv2]).
     destruct (trusted && insync n) eqn:Et.
     + apply andb_true_iff in Et. destruct Et as [-> Esy].
       split.
@@ -569,14 +610,14 @@ Qed.
 
 (* ---------------------------------------------------------------------------------------- *)
 (* the delay check *)
-Lemma step_delay Rs n m : Inv Rs n m ->
+Lemma step_delay n m : Inv n m ->
   exists m', monitor_step dl m ODelayCheck (OK :: enc_events (snd (delay_check n))) = (0, m') /\
-             Inv Rs (fst (delay_check n)) m'.
+             Inv (fst (delay_check n)) m'.
 Proof.
   intros [HS HU]. rewrite monitor_step_events by (try reflexivity; discriminate). cbv zeta.
   unfold delay_check. destruct (insync n) eqn:Esync; cbn [negb].
   2:{ cbn [snd fst map]. cbn [first_bad fold_left Z.eqb negb].
-      unfold delay_step. rewrite (vu_sync _ _ _ HU), Esync. cbn.
+      unfold delay_step. rewrite (vu_sync _ _ HU), Esync. cbn.
       exists m. split; [reflexivity|]. split; assumption. }
   pose proof (delay_loop_spec (fun _ => False) (states n) (now n - delay n) (sorted_keys (unconf n))
                 (sorted_keys_NoDup _) n []) as Hspec.
@@ -595,7 +636,7 @@ Proof.
   { intros x u Hu Hd. unfold dcond in Hd. rewrite !andb_true_iff in Hd.
     destruct Hd as [[[H1 H2] H3] H4]. apply negb_true_iff in H1, H2. apply Z.ltb_lt in H3.
     split; [exact H1|]. split; [exact H2|]. split.
-    - subst cutoff. rewrite (vu_clock _ _ _ HU), <- (vu_delay _ _ _ HU). lia.
+    - subst cutoff. rewrite (vu_clock _ _ HU), <- (vu_delay _ _ HU). lia.
     - apply orb_true_iff in H4. destruct H4 as [H4|H4]; [eapply vu_VCH; eauto|eapply vu_VCH2; eauto]. }
   assert (Hkeys : forall x u, unconf n !! x = Some u -> x ∈ sorted_keys (unconf n)).
   { intros x u Hu. apply sorted_keys_elem. eauto. }
@@ -605,11 +646,11 @@ Proof.
                    exists u so, unconf n !! t = Some u /\ dcond n cutoff t u = true /\
                                 states n !! t = Some so /\ s = mk_safe_s so).
   { intros t s H. destruct (Hev1 t s H) as (_ & _ & u & so & Hu & Hd & Hso & Hns & ->).
-    destruct (vu_US _ _ _ HU t) as (so' & Hso' & Hp); [eauto|].
+    destruct (vu_US _ _ HU t) as (so' & Hso' & Hp); [eauto|].
     assert (so' = so) by congruence. subst so'. apply orb_false_iff in Hns.
     split; [exact Hp|]. split; [reflexivity|]. split; [apply Hns|]. eauto 10. }
   assert (Hcnf : forall t s, tev_in evs t s -> cnf (m_chain m) s = false).
-  { intros t s H. rewrite (vu_chain _ _ _ HU). apply (cnf_false n s Hch0). apply (Hevp t s H). }
+  { intros t s H. rewrite (vu_chain _ _ HU). apply (cnf_false n s Hch0). apply (Hevp t s H). }
   (* the checks on the notifications *)
   assert (Hbad : first_bad dl m ODelayCheck (map ev_of evs) = 0).
   { apply (gen_checks (fun _ => False) n m (states n')); [exact HS|exact HE| |].
@@ -617,21 +658,19 @@ Proof.
     - intros t s H Hsafe _. destruct (Hevp t s (or_intror H)) as (Hp & _ & _ & u & so & Hu & Hd & Hso & ->).
       destruct (Hfired t u Hu Hd) as (F1 & F2 & F3 & F4).
       split.
-      + intros Hin. rewrite (vu_SAFE1 _ _ _ HU t u Hin Hu) in F1. discriminate.
+      + intros Hin. rewrite (vu_SAFE1 _ _ HU t u Hin Hu) in F1. discriminate.
       + right. split; [exact F4|]. split.
-        * intros Hin. destruct (vu_CONF _ _ _ HU t Hin) as (s' & Hs' & Hc).
+        * intros Hin. destruct (vu_CONF _ _ HU t Hin) as (s' & Hs' & Hc).
           { apply (vs_REL _ _ HS). eauto. }
           assert (s' = so) by congruence. subst s'.
           destruct (Hev1 t _ (or_intror H)) as (_ & _ & u' & so' & _ & _ & Hso' & Hns & Heq).
           assert (so' = so) by congruence. subst so'. apply orb_false_iff in Hns.
-          destruct Hc as [Hc|Hc]; [destruct Hns; congruence|].
-          destruct (vu_RS _ _ _ HU t Hc) as (s2 & Hs2 & Hcf). assert (s2 = so) by congruence. subst s2.
-          apply Hp. exact Hcf.
+          destruct Hns; congruence.
         * exists (u_time u). split; [eapply vu_SEEN; eauto|exact F3]. }
   rewrite Hbad. cbn [Z.eqb negb].
   (* liveness: everything whose conditions hold is reported *)
   assert (Hstep : delay_step dl m (map ev_of evs) = 0).
-  { unfold delay_step. rewrite (vu_sync _ _ _ HU), Esync. cbn [negb].
+  { unfold delay_step. rewrite (vu_sync _ _ HU), Esync. cbn [negb].
     match goal with |- (if ?c then _ else _) = _ => assert (Hc : c = false); [|rewrite Hc; reflexivity] end.
     apply existsb_false_iff. intros t Ht.
     destruct (mem t (m_vnow m)) eqn:C1; [|reflexivity].
@@ -639,11 +678,11 @@ Proof.
     destruct (mem t (m_unsafe m)) eqn:C3; [reflexivity|].
     destruct (mem t (m_safe m)) eqn:C4; [reflexivity|].
     apply mem_elem in C1. apply mem_false in C2, C3, C4. cbn [negb andb].
-    apply (vu_L _ _ _ HU) in Ht. destruct Ht as (u & Hu).
-    rewrite (vu_SEEN _ _ _ HU t u Hu).
+    apply (vu_L _ _ HU) in Ht. destruct Ht as (u & Hu).
+    rewrite (vu_SEEN _ _ HU t u Hu).
     destruct (m_clock m - u_time u >? dl) eqn:C5; [|reflexivity]. cbn [andb].
     apply negb_false_iff.
-    destruct (vu_US _ _ _ HU t) as (so & Hso & Hp); [eauto|].
+    destruct (vu_US _ _ HU t) as (so & Hso & Hp); [eauto|].
     assert (Hnu : s_unsafe so = false).
     { destruct (s_unsafe so) eqn:E; [|reflexivity]. destruct C3. apply (vs_UNS _ _ HS). eauto. }
     assert (Hnc : s_cancel so = false).
@@ -652,11 +691,11 @@ Proof.
     assert (Hd : dcond n cutoff t u = true).
     { unfold dcond. rewrite !andb_true_iff. split; [split; [split|]|].
       - apply negb_true_iff. destruct (u_safe u) eqn:E; [|reflexivity].
-        destruct (vu_SAFE2 _ _ _ HU t u Hu E); contradiction.
+        destruct (vu_SAFE2 _ _ HU t u Hu E); contradiction.
       - apply negb_true_iff. destruct (u_unsafe u) eqn:E; [|reflexivity].
         destruct C3. eapply vu_UUNS; eauto.
-      - apply Z.ltb_lt. subst cutoff. rewrite <- (vu_clock _ _ _ HU), (vu_delay _ _ _ HU). lia.
-      - destruct (vu_VNOW _ _ _ HU t C1) as [H|[(u' & Hu' & H)|[(s & Hs & H)|H]]].
+      - apply Z.ltb_lt. subst cutoff. rewrite <- (vu_clock _ _ HU), (vu_delay _ _ HU). lia.
+      - destruct (vu_VNOW _ _ HU t C1) as [H|[(u' & Hu' & H)|[(s & Hs & H)|H]]].
         + rewrite H. apply orb_true_r.
         + assert (u' = u) by congruence. subst u'. rewrite H. reflexivity.
         + assert (s = so) by congruence. subst s. destruct H as [H|H]; [congruence|contradiction].
@@ -665,7 +704,7 @@ Proof.
     - apply (Hev2 t u so); [eapply Hkeys; eauto|exact Hu|exact Hd|exact Hso|rewrite Hnu, Hnc; reflexivity].
     - cbn. rewrite Z.eqb_refl. reflexivity. }
   rewrite Hstep. fold (notes m evs). eexists. split; [reflexivity|].
-  destruct (notes_frame m evs) as (N1 & N2 & N3 & N4 & N5 & N6 & N7 & N8 & N9). cbv zeta in *.
+  destruct (notes_frame m evs) as (N1 & N2 & N3 & N4 & N5 & N6 & N7 & N8 & N9 & N10). cbv zeta in *.
   assert (Hdom : forall x, is_Some (unconf n' !! x) <-> is_Some (unconf n !! x)).
   { intros x. rewrite Hunc. unfold delay_unconf. destruct (unconf n !! x) as [u|]; [|reflexivity].
     destruct (_ && _); split; eauto. }
@@ -703,16 +742,16 @@ Proof.
     + intros t s H. destruct (Hnotx t s H).
     + intros t s b _ _ [].
   - split.
-    + rewrite N5, Hnow. apply (vu_clock _ _ _ HU).
-    + rewrite N6, Hsy. apply (vu_sync _ _ _ HU).
-    + rewrite N7, Hch. apply (vu_chain _ _ _ HU).
-    + rewrite Hdl. apply (vu_delay _ _ _ HU).
-    + rewrite N1, Hmp. apply (vu_R _ _ _ HU).
-    + rewrite N1. apply (vu_poolT _ _ _ HU).
+    + rewrite N5, Hnow. apply (vu_clock _ _ HU).
+    + rewrite N6, Hsy. apply (vu_sync _ _ HU).
+    + rewrite N7, Hch. apply (vu_chain _ _ HU).
+    + rewrite Hdl. apply (vu_delay _ _ HU).
+    + rewrite N1, Hmp. apply (vu_R _ _ HU).
+    + rewrite N1. apply (vu_poolT _ _ HU).
     + rewrite N1. intros t b Hin Hrel. eapply Ext_some; [exact HE|]. eapply vu_poolS; eauto.
-    + intros t. rewrite (notes_live_add m evs t Hcnf), Hdom, (vu_L _ _ _ HU). split; [|auto].
+    + intros t. rewrite (notes_live_add m evs t Hcnf), Hdom, (vu_L _ _ HU). split; [|auto].
       intros [H|(s & H)]; [exact H|]. destruct (Hnotx t s H).
-    + intros t Ht. apply Hdom in Ht. destruct (vu_US _ _ _ HU t Ht) as (so & Hso & Hp).
+    + intros t Ht. apply Hdom in Ht. destruct (vu_US _ _ HU t Ht) as (so & Hso & Hp).
       destruct (Hfwd t so Hso) as (s & Hs & Hps & _). exists s. split; [exact Hs|].
       rewrite Hconf'. intros Hc. apply Hp. eapply conf_same_proof; [|exact Hc]. congruence.
     + intros t s Hs Hp. apply Hdom. destruct (Hpsame t s Hs) as (so & Hso & Hps & _).
@@ -729,10 +768,10 @@ Proof.
       * assert (u1 = u) by congruence. subst u1. rewrite Hc in Hd0; [discriminate|eapply Hkeys; eauto].
       * rewrite Hc. reflexivity.
     + intros t u' Hu' Hsafe. destruct (Hun' t u' Hu') as (u & Hu & _ & _ & _ & [[-> _]|[-> Hd]]).
-      * destruct (vu_SAFE2 _ _ _ HU t u Hu Hsafe) as [H|H]; [|right; apply notes_unsafe_mono, H].
+      * destruct (vu_SAFE2 _ _ HU t u Hu Hsafe) as [H|H]; [|right; apply notes_unsafe_mono, H].
         left. apply (notes_safe m evs t (x_nodup _ _ _ _ HE)). left. split; [exact H|].
         intros s Hs. destruct (Hnotx t s Hs).
-      * destruct (vu_US _ _ _ HU t) as (so & Hso & Hp); [eauto|].
+      * destruct (vu_US _ _ HU t) as (so & Hso & Hp); [eauto|].
         destruct (s_unsafe so || s_cancel so) eqn:Eus.
         -- right. apply notes_unsafe_mono, (vs_UNS _ _ HS). exists so. split; [exact Hso|].
            apply orb_true_iff in Eus. destruct Eus as [H|H]; [exact H|].
@@ -747,16 +786,16 @@ Proof.
       * left. split; [eapply vu_SAFE3; eauto|]. intros s' Hs'. destruct (Hnotx t s' Hs').
     + rewrite N2. intros t u' Hu' Htr. destruct (Hun' t u' Hu') as (u & Hu & _ & Ht & _).
       rewrite Ht in Htr. eapply vu_VCH; eauto.
-    + rewrite N2, Hmp. apply (vu_VCH2 _ _ _ HU).
+    + rewrite N2, Hmp. apply (vu_VCH2 _ _ HU).
     + rewrite N8, Hmp. intros t Hin.
-      destruct (vu_VNOW _ _ _ HU t Hin) as [H|[(u & Hu & H)|[(s & Hs & H)|H]]]; [auto| | |auto].
+      destruct (vu_VNOW _ _ HU t Hin) as [H|[(u & Hu & H)|[(s & Hs & H)|H]]]; [auto| | |auto].
       * right. left. assert (Hs : is_Some (unconf n' !! t)) by (apply Hdom; eauto).
         destruct Hs as (u' & Hu'). destruct (Hun' t u' Hu') as (u0 & Hu0 & _ & Ht & _).
         exists u'. split; [exact Hu'|]. congruence.
       * right. right. left. destruct (Hfwd t s Hs) as (s' & Hs' & K1 & K2).
         exists s'. split; [exact Hs'|]. destruct H as [H|H]; [auto|].
         right. rewrite Hconf'. eapply conf_same_proof; eauto.
-    + rewrite N9. intros t Hin. destruct (vu_VPER _ _ _ HU t Hin) as [(u & Hu & H)|(s & Hs & H)].
+    + rewrite N9. intros t Hin. destruct (vu_VPER _ _ HU t Hin) as [(u & Hu & H)|(s & Hs & H)].
       * left. assert (Hs : is_Some (unconf n' !! t)) by (apply Hdom; eauto).
         destruct Hs as (u' & Hu'). destruct (Hun' t u' Hu') as (u0 & Hu0 & _ & Ht & _).
         exists u'. split; [exact Hu'|]. congruence.
@@ -764,16 +803,20 @@ Proof.
         rewrite Hconf'. eapply conf_same_proof; eauto.
     + intros t u' Hu' Hun. destruct (Hun' t u' Hu') as (u & Hu & _ & _ & Ht & _).
       rewrite Ht in Hun. apply notes_unsafe_mono. eapply vu_UUNS; eauto.
-    + rewrite N3. intros t Hin Hrel. destruct (vu_CONF _ _ _ HU t Hin Hrel) as (s & Hs & H).
+    + rewrite N3. intros t Hin Hrel. destruct (vu_CONF _ _ HU t Hin Hrel) as (s & Hs & H).
       destruct (Hfwd t s Hs) as (s' & Hs' & K1 & K2).
-      exists s'. split; [exact Hs'|]. destruct H; auto.
-    + intros t Hin. destruct (vu_RS _ _ _ HU t Hin) as (s & Hs & Hc).
-      destruct (Hfwd t s Hs) as (s' & Hs' & K1 & K2). exists s'. split; [exact Hs'|].
-      rewrite Hconf'. eapply conf_same_proof; eauto.
-    + rewrite N1. intros t b s Hin Hs Hc. destruct (Hpsame t s Hs) as (so & Hso & Hps & _).
-      eapply (vu_HELD _ _ _ HU t b so Hin Hso). apply Hconf' in Hc. eapply conf_same_proof; [|exact Hc]. congruence.
-    + rewrite N1. intros t b s Hin Hs Hc. apply Hdom. destruct (Hpsame t s Hs) as (so & Hso & Hps & _).
-      eapply (vu_LIMBO _ _ _ HU t b so Hin Hso). intros Hc'. apply Hc, Hconf'. eapply conf_same_proof; eauto.
+      exists s'. split; [exact Hs'|]. auto.
+    + rewrite N1. intros t b s Hin Hs. apply Hdom. destruct (Hpsame t s Hs) as (so & Hso & _).
+      eapply (vu_HELD _ _ HU t b so Hin Hso).
+    + intros t u' Hu'. destruct (Hun' t u' Hu') as (u & Hu & _).
+      destruct (vu_BODY _ _ HU t u Hu) as (so & Hso & Hb).
+      destruct (Ext_some _ _ _ _ t HE (ex_intro _ so Hso)) as (s & Hs). exists s. split; [exact Hs|].
+      unfold lookup_body. rewrite N10. fold (lookup_body m t). rewrite Hb. f_equal.
+      destruct (Ext_back _ _ _ _ t s HE Hs) as [[H|H]|[_ H]].
+      * destruct (Hnotx t s H).
+      * destruct (x_upd _ _ _ _ HE t s H) as (so' & Hso' & _ & _ & _ & _ & _ & Hbd). congruence.
+      * congruence.
+    + apply notes_live_NoDup, (vu_LND _ _ HU).
 Qed.
 
 End Flow.
